@@ -160,4 +160,19 @@ def joinStep (pos depth : Nat) : Res Step :=
   if pos < depth then .error .valueError
   else .ok (.replace (pos - depth) (pos + depth) Slice.empty true)
 
+/-! ### lift: the guard of "an approved lift applies" when nothing has to be split -/
+
+/-- the lift splits nothing: at every level `d` with `target < d ≤ depth` the range starts at the first
+    child (`from.index(d) == 0`) and ends at the last (`to.after(d + 1) == to.end(d)`), i.e. the two tests of the
+    `while d > target` loops of `lift` are false throughout and both loops only move the outer positions -/
+def liftFlatGuardR (f t : RPos) (depth target : Nat) : Bool :=
+  (List.range (depth - target)).all fun i =>
+    !decide (0 < f.index (target + i + 1)) &&
+      !decide (t.afterT (target + i + 1 + 1) < t.end_ (target + i + 1))
+
+def liftFlatGuard (doc : Node) (a b depth target : Nat) : Bool :=
+  match doc.resolve a, doc.resolve b with
+  | some f, some t => liftFlatGuardR f t depth target
+  | _, _ => true
+
 end PM
